@@ -10,7 +10,7 @@ From Ford Require Import Base.Str Base.Path Out.Names Out.NamesProofs Out.Extern
 (* For every project A (any number of modules, entities, nesting, any names — equal names in
    different modules included — any `display`, any NameSelector history a_pre), every base (a local
    directory, or a URL with a path ending in "/"), every module m of A and every entity e of m that
-   a USE can import: loading what A exported succeeds; B's `use m` finds A's m (none of B's own
+   a USE can import and A displays (others are not exported, C16_undisplayed_not_exported): loading what A exported succeeds; B's `use m` finds A's m (none of B's own
    modules has that name) and links it to base/url_of_A(m); `only: e` yields an object named e whose
    URL is base/url_of_A(e).  Only hypothesis on A: it is as Fortran allows (wf_A: its units are
    modules without nested modules, module names are distinct, and the accessible names of one
@@ -18,7 +18,8 @@ From Ford Require Import Base.Str Base.Path Out.Names Out.NamesProofs Out.Extern
    (operators included): the NameSelector model never puts a '/' into an ident (ident_of_noslash). *)
 Theorem C16_roundtrip : forall A b v locals m e w,
   wf_A A -> base_ok b ->
-  In m (a_modules A) -> In e (e_kids m) -> accessible e = true -> pub_class (e_kind e) = Some w ->
+  In m (a_modules A) -> In e (e_kids m) -> accessible e = true ->
+  shown (c_display (a_cfg A)) e = true -> pub_class (e_kind e) = Some w ->
   lower_in (e_name m) locals = false ->
   exists tops xm x u mu,
     load_json b (export A v) = Ok tops /\
@@ -29,6 +30,49 @@ Theorem C16_roundtrip : forall A b v locals m e w,
     kid_url (ident_of A) m e = Some u /\ x_url x = JStr (spec_join b u).
 Proof. exact roundtrip_all. Qed.
 Print Assumptions C16_roundtrip.
+
+(* Path by path (the Spec predicate path_ok of Out/ExternalSpec.v, the one the judge evaluates on
+   FORD's own objects): for every A whose entities have, in each list of each entity, distinct names
+   (tree_names_ok - two types may well have equally named components and bindings), and every base:
+   loading what A exported gives, for every module and at EVERY path of A's entity tree below it, an
+   object that carries base/url_of_A of the entity at that path - not of a same-named entity elsewhere.
+   Names are arbitrary: the URL-shape lemma own_url_shaped holds at any depth. *)
+Theorem C16_roundtrip_paths : forall A b v,
+  base_ok b -> Forall tree_names_ok (a_modules A) ->
+  exists tops, load_json b (export A v) = Ok tops /\
+    Forall2 (fun m x => path_ok (ident_of A) b None None m x = true) (a_modules A) tops.
+Proof. exact roundtrip_paths. Qed.
+Print Assumptions C16_roundtrip_paths.
+
+(* ... and the same below every object that a USE of B imports from the tables of public names *)
+Theorem C16_roundtrip_paths_use : forall A b v locals m e w,
+  wf_A A -> base_ok b -> tree_names_ok m ->
+  In m (a_modules A) -> In e (e_kids m) -> accessible e = true ->
+  shown (c_display (a_cfg A)) e = true -> pub_class (e_kind e) = Some w ->
+  lower_in (e_name m) locals = false ->
+  exists tops xm x,
+    load_json b (export A v) = Ok tops /\
+    find_used_module locals tops (e_name m) = Ok (Some (HExt xm)) /\
+    used_lookup xm w (e_name e) = Ok (Some x) /\
+    path_ok (ident_of A) b (Some KModule) (module_url (ident_of A) m) e x = true.
+Proof. exact roundtrip_paths_use. Qed.
+Print Assumptions C16_roundtrip_paths_use.
+
+(* non-vacuity: circle_t and square_t of one module both have a component `size` and a binding `area`;
+   square_t's members, reached through the imported square_t, carry square_t's own anchors *)
+Example C16_roundtrip_paths_nonvacuous :
+  Forall tree_names_ok (a_modules A_twin) /\ wf_A A_twin /\ base_ok (BLocal (s "/srv/a/doc")) /\
+  (exists tops xm xt,
+     load_json (BLocal (s "/srv/a/doc")) (export A_twin []) = Ok tops /\
+     find_used_module [] tops (s "shapes") = Ok (Some (HExt xm)) /\
+     used_lookup xm (s "pub_types") (s "square_t") = Ok (Some xt) /\
+     option_map x_url (slot_child xt (s "variables") (s "size"))
+       = Some (JStr (s "/srv/a/doc/type/square_t.html#variable-size~2")) /\
+     option_map x_url (slot_child xt (s "boundprocs") (s "area"))
+       = Some (JStr (s "/srv/a/doc/type/square_t.html#boundprocedure-area~2")) /\
+     forallb (fun mx => path_ok (ident_of A_twin) (BLocal (s "/srv/a/doc")) None None (fst mx) (snd mx))
+             (combine (a_modules A_twin) tops) = true).
+Proof. exact roundtrip_paths_ex. Qed.
 
 (* the whole imported structure: every exported entity, nested ones included, becomes the
    External* object of its class with its URL re-based (for every entity tree and every fuel that
@@ -53,25 +97,34 @@ Theorem C16_target_unique : forall A m1 e1 m2 e2 d1 d2,
 Proof. exact target_unique. Qed.
 Print Assumptions C16_target_unique.
 
-(* "and that page is written by A": FALSE in general (A's display may hide public entities) *)
-Definition C16_target_written_statement : Prop :=
-  forall A m e u,
-    In m (a_modules A) -> e_kind m = KModule -> In e (e_kids m) -> importable e = true ->
-    kid_url (ident_of A) m e = Some u -> In (page_of u) (pages_written A).
-Theorem C16_target_written_partial : forall A m e u,
-  In m (a_modules A) -> e_kind m = KModule -> In e (e_kids m) ->
-  shown (c_display (a_cfg A)) e = true ->
+(* "and that page is written by A" (full statement; the dead-link half of the former finding
+   export-follows-display is repaired): for every A, every module m and every entity e that one of
+   m's tables of public names holds in the description - [class_members] is exactly the content of that
+   table, C16_pub_table - the page of e's URL is among the pages A writes.  Hypothesis: no '#' in the
+   two idents (Fortran names have none). *)
+Theorem C16_exported_target_written : forall A m e w u,
+  In m (a_modules A) -> e_kind m = KModule -> In e (class_members (a_cfg A) m w) ->
   no_hash (ident_of A (e_id m)) = true -> no_hash (ident_of A (e_id e)) = true ->
   kid_url (ident_of A) m e = Some u ->
   In (page_of u) (pages_written A).
-Proof. exact target_written. Qed.
-Print Assumptions C16_target_written_partial.
-Theorem C16_target_written_refuted : ~ C16_target_written_statement.
-Proof.
-  intros H. destruct target_written_refuted as (m & e & u & A1 & A2 & A3 & A4 & A5 & A6).
-  exact (A6 (H A_private_only m e u A1 A2 A3 A4 A5)).
-Qed.
-Print Assumptions C16_target_written_refuted.
+Proof. exact exported_target_written. Qed.
+Print Assumptions C16_exported_target_written.
+
+Theorem C16_pub_table : forall idf cfg id name p kids w,
+  jkeys (jget w (export_ent idf cfg None None true (Ent id KModule name p kids)))
+  = (if str_in w PUB_DICTS then map (fun c => lower (e_name c)) (class_members cfg (Ent id KModule name p kids) w)
+     else jkeys (jget w (export_ent idf cfg None None true (Ent id KModule name p kids)))).
+Proof. exact pub_table_is_class_members. Qed.
+Print Assumptions C16_pub_table.
+
+(* an entity that A does not display is not in the description: what B holds for module m (xlate m,
+   C16_import_export) has no object of that name, so B shows the name without a link *)
+Theorem C16_undisplayed_not_exported : forall idf cfg b id name p kids w n,
+  (forall e, In e kids -> lower (e_name e) = lower n -> shown (c_display cfg) e = false) ->
+  In w PUB_DICTS ->
+  used_lookup (xlate idf cfg b None None true (Ent id KModule name p kids)) w n = Ok None.
+Proof. exact used_lookup_undisplayed. Qed.
+Print Assumptions C16_undisplayed_not_exported.
 
 (* ---------------------------------------------------------------- the exported description *)
 
